@@ -288,6 +288,14 @@ func (cmd *mainCmd) Run(args []string) error {
 		return fmt.Errorf("getwd: %w", err)
 	}
 
+	// The working directory may be reported the way it was entered, through
+	// a symbolic link ($PWD). Relative arguments are meant from the
+	// directory itself: ".." is its parent, not the directory the link
+	// lies in, and "." is a directory, not a link.
+	if resolved, err := filepath.EvalSymlinks(cwd); err == nil {
+		cwd = resolved
+	}
+
 	files, err := findFiles(cwd, opts.Args.Patterns)
 	if err != nil {
 		return err
